@@ -14,7 +14,7 @@ import (
 // The state-machine side of C07: every attempt to start a run consults the shared counter (also when an
 // earlier attempt of the same environment was cancelled or its tasks failed), the number the run carries is
 // the one the counter returned, and without a number there is no start.
-//verif:entry HarnessEveryStartDrawsANumber unwind=96 preempt=0 reach=retry,nonumber stub=github.com/AliceO2Group/Control/common/utils.TimeTrack nosched=github.com/AliceO2Group/Control/core/the.mu
+//verif:entry HarnessEveryStartDrawsANumber unwind=96 conform=12 preempt=0 reach=retry,nonumber stub=github.com/AliceO2Group/Control/common/utils.TimeTrack nosched=github.com/AliceO2Group/Control/core/the.mu
 func HarnessEveryStartDrawsANumber() {
 	rn1, rn2 := vrt.Uint32("rn1"), vrt.Uint32("rn2")
 	vrt.Assume(rn1 > 0 && rn2 > rn1)
